@@ -226,14 +226,14 @@ theorem pick_end (c : Bytes) (p : Nat) : ∀ (S : List Nat) (l s : Nat), l ≤ p
       | cons x xs => exact h2 (by simp)
     · simp only [pieces, List.length_cons, List.getElem?_cons_succ]; exact h3
 
-/-- **Group extraction partitions the bytes at the separators** — for every non-empty byte string:
-`Groups()` is the number of parts, `Group(p)` is the p-th part for every `p < Groups()`, and the
-parts joined by the separator byte are the config. -/
-theorem groups_partition_all (c : Bytes) (hc : c ≠ []) :
-    ∃ parts : List Bytes, groups c = .ok parts.length ∧
-      (∀ p : Nat, p < parts.length → group c (p : Int) = .ok parts[p]?) ∧ joinSep parts = c := by
+/-- the explicit form: the parts are the pieces between the separators the walk visits -/
+theorem groups_partition_pieces (c : Bytes) (hc : c ≠ []) :
+    groups c = .ok (pieces c (seps c (c.length + 1) 0) 0).length ∧
+      (∀ p : Nat, p < (pieces c (seps c (c.length + 1) 0) 0).length →
+        group c (p : Int) = .ok (pieces c (seps c (c.length + 1) 0) 0)[p]?) ∧
+      joinSep (pieces c (seps c (c.length + 1) 0) 0) = c := by
   have hlen : c.length ≠ 0 := fun h => hc (List.length_eq_zero_iff.mp h)
-  refine ⟨pieces c (seps c (c.length + 1) 0) 0, ?_, ?_, ?_⟩
+  refine ⟨?_, ?_, ?_⟩
   · unfold groups
     rw [if_neg hlen, groupsLoop_eq c _ 0 0 (by omega) (by omega), pieces_length]
     simp [pure, Except.pure]
@@ -279,5 +279,13 @@ theorem groups_partition_all (c : Bytes) (hc : c ≠ []) :
         rfl
   · have := join_pieces c _ 0 (seps_chain c (c.length + 1) 0 0 (by omega))
     simpa using this
+
+/-- **Group extraction partitions the bytes at the separators** — for every non-empty byte string:
+`Groups()` is the number of parts, `Group(p)` is the p-th part for every `p < Groups()`, and the
+parts joined by the separator byte are the config. -/
+theorem groups_partition_all (c : Bytes) (hc : c ≠ []) :
+    ∃ parts : List Bytes, groups c = .ok parts.length ∧
+      (∀ p : Nat, p < parts.length → group c (p : Int) = .ok parts[p]?) ∧ joinSep parts = c :=
+  ⟨_, groups_partition_pieces c hc⟩
 
 end XMT.Cfg
